@@ -1178,6 +1178,12 @@ class FileBuilder:
         if (self._new_cache.has_norm_cased_file(os.path.normcase(filename)) or
                 self._simple_operation_executor.is_cache_file(filename)):
             return False
+        if (operation.raised and
+                self._simple_operation_executor.exists(
+                    filename, created_files)):
+            # Executing the operation would remove the file, or fail during
+            # setup if it is a directory
+            return False
         try:
             self._dirs_to_make(os.path.dirname(filename), created_files)
         except OSError:
